@@ -301,6 +301,12 @@ class Run:
         self.violations.append((what, replay_path))
 
     def finish(self, level, explanation, extra_cov=None, trusted=None):
+        if not self.violations and (self.suspect or self.inconclusive) and os.environ.get('VERIF_NO_FALLBACK') != '1':
+            try:
+                from props import oracle
+                oracle.fallback(self)
+            except Exception as e:      # the fallback can only add a natively observed violation; its own failure changes nothing
+                self.notes.append('native fallback battery failed: %s' % str(e)[:200])
         wall = time.time() - self.t0
         known = load_known(self.pid)
         n_obl = len([o for o in self.obligations if o['expect'] == 'unsat']) + len([k for k in self.kani if k.get('role') == 'proof'])
